@@ -26,6 +26,8 @@ func randInt31n(n int32) int32 { return rand.Int31n(n) }
 
 func gcloopEnabled() bool { return true }
 
+func gcloopTimer(d time.Duration) <-chan time.Time { return time.After(d) }
+
 func openDiskLeveldb(path string, o *opt.Options) (*leveldb.DB, error) {
 	return leveldb.OpenFile(path, o)
 }
